@@ -37,12 +37,24 @@ class Violation(Exception):
         self.sig = sig or msg.split(":")[0][:80]
 
 
+class CaseTimeout(BaseException):
+    """raised by the per-case alarm"""
+
+
+class AbortRun(BaseException):
+    """stops a Hypothesis run at once (no shrinking), e.g. after a case that did not return"""
+
+
+def _on_alarm(signum, frame):
+    raise CaseTimeout()
+
+
 class Sub:
     """One generator + oracle pair of a property."""
 
     def __init__(self, name, run, strategy=None, enum=None, n_quick=1000, n_thorough=20000,
                  required=(), shrink_quick=True, shrink_thorough=True, exhaustive=False,
-                 reset=True, shards=None, desc=""):
+                 reset=True, shards=None, desc="", case_timeout=120):
         self.name = name
         self.run = run  # run(case) -> dict(nt=bool, cls=[...]) ; raises Violation
         self.strategy = strategy  # hypothesis strategy of cases (JSON-serialisable)
@@ -54,6 +66,7 @@ class Sub:
         self.reset = reset  # restore FRAME's process-wide state before each case
         self.shards = shards
         self.desc = desc
+        self.case_timeout = int(os.environ.get("VERIF_CASE_TIMEOUT", case_timeout))  # seconds; a case of a ms-scale operation that does not return is a failure
 
 
 # ------------------------------------------------------------------------------------------------
@@ -140,7 +153,18 @@ class Stats:
 # worker side
 
 
+def _limit_memory():
+    """a runaway loop in the code under test must end in MemoryError, not in swapping the machine to death"""
+    try:
+        import resource
+        lim = int(os.environ.get("VERIF_MEM_GB", "3")) << 30
+        resource.setrlimit(resource.RLIMIT_AS, (lim, lim))
+    except Exception:
+        pass
+
+
 def _task(args):
+    _limit_memory()
     prop_mod, sub_name, shard, nshards, n, seed_val, deadline, tier, open_sigs = args
     out = dict(sub=sub_name, shard=shard, failure=None, error=None)
     try:
@@ -161,14 +185,40 @@ def _task(args):
 def _guarded_run(sub, case, st, open_sigs, holder):
     if sub.reset:
         reset_frame_state()
+    import signal
+    signal.signal(signal.SIGALRM, _on_alarm)
+    signal.setitimer(signal.ITIMER_REAL, sub.case_timeout)
     try:
         info = sub.run(case)
+    except CaseTimeout:
+        signal.setitimer(signal.ITIMER_REAL, 0)
+        sig = "no-result-within-timeout"
+        if sig in open_sigs:
+            st.known[sig] += 1
+            return
+        holder["viol"] = (case, "the operation did not return within %d s (it normally takes milliseconds)" % sub.case_timeout, sig)
+        raise AbortRun()
+    except MemoryError as e:
+        signal.setitimer(signal.ITIMER_REAL, 0)
+        e.__traceback__ = None
+        del e
+        import gc
+        gc.collect()
+        sig = "memory-exhausted"
+        if sig in open_sigs:
+            st.known[sig] += 1
+            return
+        holder["viol"] = (case, "the operation exhausted the per-process memory limit (runaway loop?)", sig)
+        raise AbortRun()
     except Violation as v:
+        signal.setitimer(signal.ITIMER_REAL, 0)
         if v.sig in open_sigs:
             st.known[v.sig] += 1
             return
         holder["viol"] = (case, str(v), v.sig)
         raise
+    finally:
+        signal.setitimer(signal.ITIMER_REAL, 0)
     st.record(case, info)
 
 
@@ -180,7 +230,7 @@ def _enum_task(sub, tier, shard, nshards, deadline, st, open_sigs):
             break
         try:
             _guarded_run(sub, case, st, open_sigs, holder)
-        except Violation:
+        except (Violation, AbortRun):
             return holder["viol"]
     return None
 
@@ -204,7 +254,7 @@ def _hyp_task(sub, n, seed_val, deadline, st, shrink, open_sigs):
     test = hypothesis.seed(seed_val)(stt(given(sub.strategy)(body)))
     try:
         test()
-    except Violation:
+    except (Violation, AbortRun):
         return holder["viol"]
     except BaseException as e:
         # Hypothesis reports a failure that does not reproduce when the example is re-run as "flaky".  The oracle is a
@@ -236,14 +286,29 @@ def replay_file(mod, path):
     sub = _find_sub(mod, doc["sub"])
     if sub.reset:
         reset_frame_state()
+    import signal
+    signal.signal(signal.SIGALRM, _on_alarm)
+    signal.setitimer(signal.ITIMER_REAL, sub.case_timeout)
     try:
         sub.run(doc["case"])
+    except CaseTimeout:
+        return ("the operation did not return within %d s (it normally takes milliseconds)" % sub.case_timeout,
+                "no-result-within-timeout")
+    except MemoryError as e:
+        e.__traceback__ = None
+        del e
+        import gc
+        gc.collect()
+        return ("the operation exhausted the per-process memory limit (runaway loop?)", "memory-exhausted")
     except Violation as v:
         return str(v), v.sig
+    finally:
+        signal.setitimer(signal.ITIMER_REAL, 0)
     return None
 
 
 def _replay_in_child(prop_mod, path, q):
+    _limit_memory()
     try:
         mod = importlib.import_module(prop_mod)
         q.put(("ok", replay_file(mod, path)))
